@@ -11,9 +11,9 @@ def analyse(ctx: CheckContext, p: Program):
     cone = r.pipeline_cone()
     ctx.info["pipeline_cone_functions"] = len(cone)
     pe = effect.ParamEffects(p, r)
-    effect.check_mutable_defaults(ctx, p, r, pe)
-    effect.check_module_state(ctx, p, r, cone)
-    effect.check_caller_input(ctx, p, r)
+    ctx.guard(effect.check_mutable_defaults, ctx, p, r, pe)
+    ctx.guard(effect.check_module_state, ctx, p, r, cone)
+    ctx.guard(effect.check_caller_input, ctx, p, r)
 
 
 def run(ctx: CheckContext):
